@@ -57,9 +57,10 @@ pub fn evidence_json(st: &Stats, m: &EvidenceMeta) -> J {
     let evaluations = st.runs + st.chains;
     // distinct non-trivial cases: distinct fingerprints among executed runs in which a fault
     // actually fired or a builder call was actually rejected (a measured set), plus the
-    // enumerated builder chains that were rejected or built (distinct by construction: the
-    // enumeration visits each (instantiation, call sequence) once)
-    let distinct = st.fingerprints.len() as u64 + st.chains_rejected + st.chains_built;
+    // builder chains of the main exhaustive enumeration that were rejected or built (distinct by
+    // construction: that enumeration visits each (instantiation, call sequence) once; the other
+    // enumerations overlap with it and are left out of this number)
+    let distinct = st.fingerprints.len() as u64 + st.bexh_distinct;
     let mut samples: Vec<J> = Vec::new();
     let mut sorted = st.samples.clone();
     sorted.sort_by(|a, b| a.0.cmp(&b.0));
@@ -83,7 +84,7 @@ pub fn evidence_json(st: &Stats, m: &EvidenceMeta) -> J {
         ("distinct_nontrivial", J::U(distinct)),
         (
             "rule",
-            J::s("evaluations = simulated runs executed through the replayable path (fault-grid reference and fault runs, swarm runs) + builder call chains enumerated by the fast path. A case is non-trivial if a planned derivative fault actually fired in it or a builder call was actually rejected / a complete configuration actually built. distinct_nontrivial = number of distinct 64-bit event-log fingerprints among the non-trivial executed runs (a measured set) + number of rejected-or-built enumerated chains (each (instantiation, call sequence) is visited exactly once by the enumeration, so they are distinct by construction)."),
+            J::s("evaluations = simulated runs executed through the replayable path (fault-grid reference and fault runs, swarm runs) + builder call chains enumerated by the fast path. A case is non-trivial if a planned derivative fault actually fired in it or a builder call was actually rejected / a complete configuration actually built. distinct_nontrivial = number of distinct 64-bit event-log fingerprints among the non-trivial executed runs (a measured set) + number of rejected-or-built chains of the main exhaustive enumeration (each (instantiation, call sequence) is visited exactly once by it, so they are distinct by construction; the chains of the deeper sub-alphabet enumerations, of the orders, subsets and insertions overlap with it and are not counted here)."),
         ),
         ("samples", J::A(samples)),
         ("exhaustive", J::Bool(false)),
@@ -150,7 +151,8 @@ pub fn evidence_json(st: &Stats, m: &EvidenceMeta) -> J {
                 ("after_err_returned_none", J::U(st.extra_polls_after_err)),
                 ("after_any_end_returned_none", J::U(st.extra_none)),
                 ("after_normal_completion_returned_some", J::U(st.extra_some_after_done)),
-                ("note", J::s("polls after an Err item are judged (must be None); polls after normal completion are only recorded, C06 does not speak about them")),
+                ("after_the_solvers_own_error_returned_some_not_judged", J::U(st.after_own_err)),
+                ("note", J::s("polls after the Err item of a failing derivative call are judged (must be None); polls after normal completion or after an error of the solver itself with no fault involved are only recorded, C06 does not speak about them")),
             ]),
         ),
         (
@@ -169,7 +171,9 @@ pub fn evidence_json(st: &Stats, m: &EvidenceMeta) -> J {
                 ("hook_reads_with_both_bounds_set", J::U(st.hook_both_set)),
                 ("hook_reads_where_a_clamping_branch_ran", J::U(st.hook_clamped)),
                 ("solver_level_bound_reads_B7", J::U(st.solver_bound_reads)),
-                ("builder_fields_seen_inverted_before_solve_not_judged", J::U(st.builder_inverted)),
+                ("builder_fields_seen_inverted_after_some_call", J::U(st.builder_inverted)),
+                ("solver_bounds_inverted_with_the_builders_in_order_not_judged", J::U(st.solver_inverted_only)),
+                ("chains_completed_with_canonical_values_and_built", J::U(st.chains_completed)),
                 ("euler_nonpositive_tolerance_accepted", J::U(st.euler_tol_nonpositive_ok)),
             ]),
         ),
